@@ -114,6 +114,14 @@ def discharge(ob, timeout_s=10.0, use_cvc5=True):
                     ob.model = s2.model()
             else:
                 ob.reason += " | cvc5: " + (first or "no answer")
+                # third back end: the z3 4.8.12 command-line solver (its quantifier instantiation differs from 5.x);
+                # only a proof is taken over from it
+                first3, out3, dt3 = run_z3cli(txt, timeout_s)
+                if first3 == "unsat":
+                    ob.verdict = "proved"
+                    ob.backend = "z3-4.8.12(cli)"
+                else:
+                    ob.reason += " | z3-4.8.12: " + (first3 or "no answer")
     ob.time = time.time() - t0
     if ob.expect == "sat":
         # vacuity probes / canaries: must be satisfiable
